@@ -167,7 +167,7 @@ macro_rules! digits_body {
         let expp = refscan!($t, s, 10, true);
         let rp = <$t>::from_lexical_partial_with_options::<FORMAT>(s, &opts);
         cmp_partial!($t, rp, expp, s.len());
-        cover(neg);
+        cover(neg == $signed);
     }};
 }
 
